@@ -14,6 +14,19 @@ Require Import Norad.Model.Base Norad.Model.Interleave Norad.Proofs.InterleaveP.
 From Coq Require Import Permutation.
 Open Scope N_scope.
 
+Section Lower.
+(** [str::to_lowercase] is not modelled: every statement holds for an arbitrary function. *)
+Variable lower : str -> str.
+Notation par_layer := (par_layer lower).
+Notation seq_layer := (seq_layer lower).
+Notation spec_layer := (spec_layer lower).
+Notation layer_ok := (layer_ok lower).
+Notation par_font := (par_font lower).
+Notation seq_font := (seq_font lower).
+Notation spec_font := (spec_font lower).
+Notation font_ok := (font_ok lower).
+
+
 (** Every [get] returns a name whose content is the requested one — at every moment of every
     schedule: the names handed to thread [i] so far have the contents of its first requests. *)
 Theorem C19_intern_content : forall sched s progs i th p,
@@ -49,34 +62,34 @@ Proof. exact fold_ins_perm. Qed.
 Theorem C19_ok_iff_all_ok : forall sched s ts,
   ((exists m, snd (par_layer sched s ts) = inr m) <-> layer_ok ts = true) /\
   ((exists m, snd (seq_layer s ts) = inr m) <-> layer_ok ts = true).
-Proof. intros. split; [apply par_layer_ok_iff | apply seq_layer_ok_iff]. Qed.
+Proof. intros. split; [apply (par_layer_ok_iff lower) | apply (seq_layer_ok_iff lower)]. Qed.
 
 (** One layer: for every schedule the parallel load equals the specification (key ↦ the glyph its
     file determines, named by the key) and therefore the sequential load.  Covers failing loads
     too (both sides [None]).  [NoDup keys]: [contents] is a [BTreeMap]. *)
 Theorem C19_par_layer_meets_spec : forall sched s ts,
   NoDup (keys_of ts) -> erase_res (snd (par_layer sched s ts)) = spec_layer ts.
-Proof. exact par_layer_spec. Qed.
+Proof. exact (par_layer_spec lower). Qed.
 Theorem C19_par_layer_eq_seq : forall sched s ts,
   NoDup (keys_of ts) -> erase_res (snd (par_layer sched s ts)) = erase_res (snd (seq_layer s ts)).
-Proof. exact par_layer_eq_seq. Qed.
+Proof. exact (par_layer_eq_seq lower). Qed.
 
 (** The composite, whole font (layers one after the other, shared interner, one schedule per layer). *)
 Theorem C19_par_eq_seq : forall scheds s ls,
   layers_ok ls -> erase_font (snd (par_font scheds s ls)) = erase_font (snd (seq_font s ls)).
-Proof. exact par_font_eq_seq. Qed.
+Proof. exact (par_font_eq_seq lower). Qed.
 (** in the form of DESIGN.md: all tasks Ok -> both succeed with the same font *)
 Theorem C19_par_eq_seq_ok : forall scheds s ls,
   layers_ok ls -> font_ok ls = true ->
   exists f, spec_font ls = Some f /\
             erase_font (snd (par_font scheds s ls)) = Some f /\ erase_font (snd (seq_font s ls)) = Some f.
 Proof.
-  intros scheds s ls H Hok. rewrite par_font_spec, seq_font_spec by assumption.
+  intros scheds s ls H Hok. rewrite (par_font_spec lower), (seq_font_spec lower) by assumption.
   destruct (spec_font ls) as [f|] eqn:E; [eauto|]. exfalso.
-  pose proof (seq_font_spec ls s) as HS. rewrite E in HS.
+  pose proof (seq_font_spec lower ls s) as HS. rewrite E in HS.
   clear E. revert s HS. induction ls as [|[ln ts] r IH]; intros s HS; [discriminate|].
   cbn [font_ok forallb snd] in Hok. apply andb_true_iff in Hok. destruct Hok as [Ht Hr].
-  cbn [seq_font] in HS. pose proof (proj2 (seq_layer_ok_iff s ts) Ht) as [m Hm].
+  cbn [seq_font] in HS. pose proof (proj2 (seq_layer_ok_iff lower s ts) Ht) as [m Hm].
   destruct (seq_layer s ts) as [s1 res]. cbn [snd] in Hm. subst res.
   specialize (IH (fun l Hl => H l (or_intror Hl)) Hr s1).
   destruct (seq_font s1 r) as [s2 [e|ms]]; cbn [snd erase_font] in *; [auto|discriminate].
@@ -86,8 +99,8 @@ Theorem C19_set_par_eq_seq : forall scheds s ls, font_ok ls = true -> NoDup (map
   NoDup (map content (fst (par_font scheds s ls))) /\
   forall c, In c (map content (fst (par_font scheds s ls))) <-> In c (map content (fst (seq_font s ls))).
 Proof.
-  intros scheds s ls Hok ND. destruct (par_font_set ls scheds s Hok) as [N1 H1].
-  destruct (seq_font_set ls s Hok) as [_ H2]. split; [auto|]. intro c. rewrite H1, H2. tauto.
+  intros scheds s ls Hok ND. destruct (par_font_set lower ls scheds s Hok) as [N1 H1].
+  destruct (seq_font_set lower ls s Hok) as [_ H2]. split; [auto|]. intro c. rewrite H1, H2. tauto.
 Qed.
 
 (** Saving: writes to pairwise different paths commute, so every schedule leaves the tree of the
@@ -118,6 +131,32 @@ Example C19_nonatomic_truncated_visible :
   par_save2 [0;1;1;0]%nat [([97],[9])] ws = inr [([97],[1]); ([98],[2])] /\
   par_save2 [1;0]%nat [] [ ([97], inr [1]); ([98], inl 5) ] = inl 0 /\ NoDup (map fst ws).
 Proof. vm_compute. repeat split; repeat constructor; cbn; intuition discriminate. Qed.
+
+(** * The full save statement (formerly refuted for the class dup-glif-paths, repaired in norad
+    by afd801a: [load_impl] refuses a [contents] in which two names share a file; f6784f0: compared lower-cased).
+    Where the distinctness of the paths comes from:
+    - a LOADED layer: from load's own check, proved here ([C19_loaded_paths_distinct]);
+    - a layer built through the API: from the container invariant ([insert_glyph] picks a file
+      name that is not in [path_set]; properties C06/C07) — there it is the hypothesis
+      [NoDup (map fst ws)] of [C19_par_save_eq_seq].
+    Without any source of distinctness the write order would show: see the last example. *)
+Theorem C19_loaded_paths_distinct : forall sched s ts enc,
+  (exists m, snd (par_layer sched s ts) = inr m) -> NoDup (map fst (save_tasks enc ts)).
+Proof. exact (loaded_layer_paths_distinct lower). Qed.
+Theorem C19_save_full : forall sched s ts enc sched' tree,
+  (exists m, snd (par_layer sched s ts) = inr m) ->
+  ok_tree (par_save sched' tree (save_tasks enc ts)) = ok_tree (seq_save tree (save_tasks enc ts)) /\
+  tree_equiv (ok_tree (par_save2 sched' tree (save_tasks enc ts))) (ok_tree (seq_save tree (save_tasks enc ts))).
+Proof.
+  intros sched s ts enc sched' tree H. pose proof (loaded_layer_paths_distinct lower sched s ts enc H) as ND.
+  split; [apply par_save_eq_seq | apply par_save2_equiv]; exact ND.
+Qed.
+End Lower.
+
+Notation par_layer := (par_layer ascii_lower).
+Notation seq_layer := (seq_layer ascii_lower).
+Notation spec_layer := (spec_layer ascii_lower).
+Notation layer_ok := (layer_ok ascii_lower).
 
 (** * Non-vacuity *)
 Definition nm (c : N) (id : N) : name := ([c], id).
@@ -174,30 +213,16 @@ Example C19_save_two_orders :
   par_save [] [] ws = seq_save [] ws /\ NoDup (map fst ws).
 Proof. vm_compute. repeat split; repeat constructor; cbn; intuition discriminate. Qed.
 
-(** * The full save statement (formerly refuted for the class dup-glif-paths, repaired in norad
-    by afd801a: [load_impl] refuses a [contents] in which two names share a file).
-    Where the distinctness of the paths comes from:
-    - a LOADED layer: from load's own check, proved here ([C19_loaded_paths_distinct]);
-    - a layer built through the API: from the container invariant ([insert_glyph] picks a file
-      name that is not in [path_set]; properties C06/C07) — there it is the hypothesis
-      [NoDup (map fst ws)] of [C19_par_save_eq_seq].
-    Without any source of distinctness the write order would show: see the last example. *)
-Theorem C19_loaded_paths_distinct : forall sched s ts enc,
-  (exists m, snd (par_layer sched s ts) = inr m) -> NoDup (map fst (save_tasks enc ts)).
-Proof. exact loaded_layer_paths_distinct. Qed.
-Theorem C19_save_full : forall sched s ts enc sched' tree,
-  (exists m, snd (par_layer sched s ts) = inr m) ->
-  ok_tree (par_save sched' tree (save_tasks enc ts)) = ok_tree (seq_save tree (save_tasks enc ts)) /\
-  tree_equiv (ok_tree (par_save2 sched' tree (save_tasks enc ts))) (ok_tree (seq_save tree (save_tasks enc ts))).
-Proof.
-  intros sched s ts enc sched' tree H. pose proof (loaded_layer_paths_distinct sched s ts enc H) as ND.
-  split; [apply par_save_eq_seq | apply par_save2_equiv]; exact ND.
-Qed.
 (** the former witness: two names, one file — refused by both builds, under every schedule *)
 Example C19_dup_file_refused :
   let ts := [ mkTask (nm 97 1) (Some [7]) [nm 97 2] (TOk 1); mkTask (nm 98 3) (Some [7]) [nm 98 4] (TOk 2) ] in
   (forall sched, snd (par_layer sched [] ts) = inl 2) /\ snd (seq_layer [] ts) = inl 2 /\ spec_layer ts = None /\
   layer_ok ex_tasks = true.
+Proof. vm_compute. repeat split. Qed.
+(** file names that differ only in case are refused as well (f6784f0) *)
+Example C19_case_variant_file_refused :
+  let ts := [ mkTask (nm 97 1) (Some [120;46;103]) [nm 97 2] (TOk 1); mkTask (nm 98 3) (Some [88;46;103]) [nm 98 4] (TOk 2) ] in
+  (forall sched, snd (par_layer sched [] ts) = inl 2) /\ snd (seq_layer [] ts) = inl 2 /\ spec_layer ts = None.
 Proof. vm_compute. repeat split. Qed.
 (** why the hypothesis is needed: on one path the last writer wins *)
 Example C19_same_path_order_shows :
